@@ -158,6 +158,7 @@ def angle_grid(per_side):
         for d in offsets(per_side):
             g += [th - d, th + d]
     g += [0.0, 0.15, 0.5 * (TH37 + TH60), math.pi / 2, 2.0, 2.6, 3.0]
+    g += [TH60 - 4e-4, TH60 + 4e-4, TH37 - 4e-4, TH37 + 4e-4]      # inside the guard band: must be filtered, not compared
     return sorted(set(g))
 
 
@@ -167,7 +168,8 @@ def hinge(theta, shape=0, flip=False):
     coordinates; the oracle classifies the rounded coordinates exactly)."""
     c, s = math.cos(theta), math.sin(theta)
     if shape == 0:
-        pts = [(0, 0, 0), (1, 0, 0), (0, 1, 0), (0, -c, s)]
+        # generic corner angles (no rounding ties of the corner orders); normals (0,0,1) and (0,s,c)
+        pts = [(0, 0, 0), (1, 0, 0), (0.3, 1.1, 0), (0.4, -0.9 * c, 0.9 * s)]
     else:
         pts = [(0, 0, 0), (2, 0, 0), (3, 2, 0), (-2, -3 * c, 3 * s)]
     faces = [(0, 1, 2), (1, 0, 3)]
